@@ -945,7 +945,8 @@ fn gen_lines(tier: &str, seed: u64, w: &mut Vec<u8>) {
         }
         writeln!(w, "hash_ph_pack 255 256").unwrap();
         for f in 0..5 {
-            writeln!(w, "hash_chv_pack {} {} {}", f, f + 1, if thorough { 1 } else { 16 }).unwrap();
+            // flags >= 4: every tuple panics in pack (assertion); a coarser size step is enough there
+            writeln!(w, "hash_chv_pack {} {} {}", f, f + 1, if thorough && f < 4 { 1 } else { 16 }).unwrap();
         }
         for _ in 0..200 * scale {
             let b = rng.bytes(3);
@@ -976,8 +977,17 @@ fn gen_lines(tier: &str, seed: u64, w: &mut Vec<u8>) {
                 writeln!(w, "hash_read {} 1400 - {} {} 1 -", h, lo, lo + 32).unwrap();
             }
             if thorough {
-                for lo in (0..256).step_by(4) {
-                    writeln!(w, "hash_read {} 1400 - {} {} 2 -", h, lo, lo + 4).unwrap();
+                // all three-byte datagrams.  A header with the compression flag (and without the
+                // connless flag) makes the reader decompress an empty stream up to the capacity, which
+                // costs milliseconds in the model: for those first bytes the ack byte is restricted to
+                // {0x00, 0xff} (the second byte does not influence the control flow).
+                for b0 in 0..256u32 {
+                    if b0 & 0x80 != 0 && b0 & 0x20 == 0 {
+                        writeln!(w, "hash_read {} 1400 {:02x}00 0 256 0 -", h, b0).unwrap();
+                        writeln!(w, "hash_read {} 1400 {:02x}ff 0 256 0 -", h, b0).unwrap();
+                    } else {
+                        writeln!(w, "hash_read {} 1400 - {} {} 2 -", h, b0, b0 + 1).unwrap();
+                    }
                 }
             } else {
                 // all packet-header first bytes × ack byte ∈ boundary × all num_chunks
@@ -1059,6 +1069,27 @@ fn gen_lines(tier: &str, seed: u64, w: &mut Vec<u8>) {
             }
         }
 
+// the compression decision boundary: payloads whose compressed form is exactly as long as,
+// one byte shorter or one byte longer than the payload ("compressed iff strictly shorter")
+for kind in 0..6u64 {
+    let mut found = 0;
+    for n in 1..400usize {
+        let mut r2 = Rng::new(seed ^ (kind << 32) ^ n as u64);
+        let d: Vec<u8> = match kind {
+            0 => (0..n).map(|_| r2.below(16) as u8).collect(),
+            1 => (0..n).map(|_| r2.below(8) as u8 * 3).collect(),
+            2 => (0..n).map(|_| if r2.chance(1, 2) { 0 } else { r2.next() as u8 }).collect(),
+            3 => (0..n).map(|_| b"etaoin shrdlu\0"[r2.below(14) as usize]).collect(),
+            4 => (0..n).map(|_| if r2.chance(1, 3) { 0 } else { r2.below(32) as u8 }).collect(),
+            _ => (0..n).map(|i| if i % 3 == 0 { r2.next() as u8 } else { 0 }).collect(),
+        };
+        let cl = HUFFMAN.compressed_len(&d);
+        if cl + 1 >= d.len() && cl <= d.len() + 1 && found < 12 {
+            found += 1;
+            writeln!(w, "write 1400 {}", spec_str(&Spec::Chunks(7, None, false, 1, d.clone()))).unwrap();
+        }
+    }
+}
         // ---- outside `Valid`: refusals, panics, silent truncation; small buffers ----
         for _ in 0..150 * scale {
             let mut s = gen_valid_spec(&mut rng);
